@@ -5,7 +5,7 @@
 From Coq Require Import List ZArith Bool.
 From SVC Require Import Base.AMap Base.Res Base.Dec Model.Types Model.Pricing
   Model.Handlers Model.EndBlock Model.Step Proofs.Inv Proofs.BankLemmas Proofs.StepSpecs_deposit
-  Proofs.TraceLemmas Proofs.TraceSettle.
+  Proofs.TraceLemmas Proofs.TraceSettle Proofs.DecProofs Proofs.GapC02 Proofs.GapC02b.
 Import ListNotations.
 Open Scope Z_scope.
 
@@ -138,3 +138,68 @@ Theorem C14_slash_disables : forall cfg s r s1,
     /\ (b_avail b' = b_avail b -> b_dtime b' = b_dtime b).
 Proof. exact StepSpecs_deposit.C14_slash_disables. Qed.
 Print Assumptions C14_slash_disables.
+
+(* ------------------------------------------------------------------ *)
+(* gap closing (audit C04, section (d)) *)
+
+(* an accepted response is slashed iff its output is non-empty and fails the schema -- in super
+   mode as well; the slash events among the events d appended by the step are then exactly the
+   one slash of the binding (service of the context, provider of the request) by the fraction of
+   its deposit at that moment, and deposit, supply and custody account fall by that amount;
+   otherwise the step appends no slash event and touches neither bindings nor supply.
+   is_any_slash e := e is an EvSlash;  dep_at s k := deposit recorded on binding k (0 if absent) *)
+Theorem C04_respond_slash_iff : forall cfg s r who code out ov ok s',
+  handle cfg s (ORespond r who code out ov ok) = Ok s' ->
+  exists d, log s' = d ++ log s /\
+    if negb (out =? 0) && negb ov
+    then exists sa q rc,
+         slash cfg s r = Ok sa /\ get r (reqs s) = Some q /\ get (rid_ctx r) (ctxs s) = Some rc
+         /\ who = r_prov q
+         /\ has (c_svc rc, r_prov q) (binds s) = true
+         /\ filter is_any_slash d
+            = [EvSlash r (c_svc rc, r_prov q)
+                 (mul_trunc (dep_at s (c_svc rc, r_prov q)) (p_slash cfg))]
+         /\ 0 <= mul_trunc (dep_at s (c_svc rc, r_prov q)) (p_slash cfg) <= dep_at s (c_svc rc, r_prov q)
+         /\ dep_at s' (c_svc rc, r_prov q)
+            = dep_at s (c_svc rc, r_prov q) - mul_trunc (dep_at s (c_svc rc, r_prov q)) (p_slash cfg)
+         /\ (forall k, k <> (c_svc rc, r_prov q) -> get k (binds s') = get k (binds s))
+         /\ supply s' = supply s - mul_trunc (dep_at s (c_svc rc, r_prov q)) (p_slash cfg)
+         /\ bal s' Deposit = bal s Deposit - mul_trunc (dep_at s (c_svc rc, r_prov q)) (p_slash cfg)
+    else filter is_any_slash d = [] /\ binds s' = binds s /\ supply s' = supply s
+         /\ bal s' Deposit = bal s Deposit.
+Proof. exact GapC02.respond_slash_iff. Qed.
+Print Assumptions C04_respond_slash_iff.
+
+(* "times out" by heights: a request still active when the EndBlock of its expiry height runs
+   is expired in that EndBlock (EvExpire among the events appended); outside super mode the
+   binding (service of the context, provider of the request) is slashed exactly once and the fee
+   refunded; in super mode there is no slash *)
+Theorem C04_timeout_is_slashed : forall cfg s dt r q rc,
+  wf_cfg cfg -> Reach cfg s -> wf_op s (OEndBlock dt) ->
+  get r (reqs s) = Some q -> r_active q = true -> r_exp q = height s ->
+  get (rid_ctx r) (ctxs s) = Some rc ->
+  let s' := end_block cfg s dt in
+  Reach cfg s'
+  /\ get r (reqs s') = None
+  /\ In (EvIssue r (r_prov q) (c_cons rc) (r_fee q)) (log s)
+  /\ (exists d, log s' = d ++ log s /\ In (EvExpire r) d)
+  /\ (c_super rc = true -> r_fee q = 0 /\ counts r (log s') = (1, 0, 0, 0, 0, 0, 1)%nat)
+  /\ (c_super rc = false ->
+        0 < r_fee q /\ counts r (log s') = (1, 0, 0, 0, 1, 1, 1)%nat
+        /\ In (EvRefund r (c_cons rc) (r_fee q)) (log s')
+        /\ exists amt, In (EvSlash r (c_svc rc, r_prov q) amt) (log s')).
+Proof. exact GapC02b.timeout_settled. Qed.
+Print Assumptions C04_timeout_is_slashed.
+
+(* the arithmetic of the amount: floor(deposit x fraction); fraction 0 and fraction 1 *)
+Theorem C04_amount_is_floor : forall d f, 0 <= d -> 0 <= f -> mul_trunc d f = (d * f) / PREC.
+Proof. exact DecProofs.mul_trunc_floor. Qed.
+Print Assumptions C04_amount_is_floor.
+
+Theorem C04_fraction_zero : forall d, mul_trunc d 0 = 0.
+Proof. exact DecProofs.mul_trunc_0_r. Qed.
+Print Assumptions C04_fraction_zero.
+
+Theorem C04_fraction_one : forall d, mul_trunc d ONE = d.
+Proof. exact DecProofs.mul_trunc_ONE. Qed.
+Print Assumptions C04_fraction_one.
